@@ -636,8 +636,11 @@ Error RALocalAllocator::alloc_instruction(InstNode* node) noexcept {
             uint32_t rm_size = tied_reg->rm_size();
 
             if (rm_size <= work_reg->virt_reg()->virt_size()) {
+              BaseMem mem;
+              ASMJIT_PROPAGATE(_pass.work_reg_as_mem(Out(mem), work_reg));
+
               Operand& op = node->operands()[op_index];
-              op = _pass.work_reg_as_mem(work_reg);
+              op = mem;
 
               // NOTE: We cannot use `x86::Mem::set_size()` from here, so let's manipulate the signature directly.
               op._signature.set_size(rm_size);
